@@ -101,6 +101,7 @@ type loopSig struct {
 	calls   map[string]int
 	exits   map[string]int
 	flagPos map[string]token.Pos
+	order   []string // exits in source order (ast.Inspect is pre-order, so this is textual order)
 }
 
 // pathCond renders the conjunction of branch conditions under which n executes inside the loop body,
@@ -173,12 +174,14 @@ func loopSignatureCtx(c *Ctx, info *types.Info, l *argLoop) *loopSig {
 			}
 		case *ast.BranchStmt:
 			s.exits[x.Tok.String()+under(x)]++
+			s.order = append(s.order, x.Tok.String()+under(x))
 		case *ast.ReturnStmt:
 			var parts []string
 			for _, r := range x.Results {
 				parts = append(parts, returnShape(info, r))
 			}
 			s.exits["return("+strings.Join(parts, ",")+")"+under(x)]++
+			s.order = append(s.order, "return("+strings.Join(parts, ",")+")"+under(x))
 		case *ast.AssignStmt:
 			// assignments to flags such as returnUnknown = true
 			for i, lh := range x.Lhs {
@@ -269,6 +272,16 @@ func runLoopAgreement(rr *RuleRun) {
 		}
 		diffs = append(diffs, diffCounts(ps.calls, vs.calls)...)
 		diffs = append(diffs, diffCounts(ps.exits, vs.exits)...)
+		if len(diffs) == 0 && len(ps.order) == len(vs.order) {
+			// the same checks, but in a different order: an argument that fails two of them is then treated
+			// differently depending on whether it is positional or variadic
+			for i := range ps.order {
+				if ps.order[i] != vs.order[i] {
+					diffs = append(diffs, fmt.Sprintf("the checks are made in a different order: exit #%d is '%s' in the positional loop and '%s' in the variadic loop", i+1, trunc(ps.order[i], 70), trunc(vs.order[i], 70)))
+					break
+				}
+			}
+		}
 		sort.Strings(diffs)
 		if len(diffs) > 0 {
 			rr.Violation(key, vari.loop.Pos(), "positional and variadic loops disagree: "+strings.Join(diffs, "; "))
